@@ -577,6 +577,39 @@ def module_binds_name(prog: Program, rep: Report, rule: str):
     rep.check(not bad, rule, f.qualname, f.loc, f"the module an object reports is used only after checking that it binds the name to that object ({n} return(s))", "the resolver answers with obj.__module__ of whatever object the name is bound to on the stack: for the classic recursive value alias `Tree = Union[List['Tree'], int]` that is 'typing', for `from decimal import Decimal as Dec` it is 'decimal' -- the name is then evaluated in a module that does not bind it: NameError when the routine is built, even in the alias's own module", detail="module-binds-name")
 
 
+def stack_walk_from_caller(prog: Program, rep: Report, rule: str):
+    """A bare name is "resolvable from the caller's module": the search through the stack is for the *caller's* bindings.
+    frames.extract() answers from the first frame whose globals or locals bind the name, and started without a frame it starts
+    at its own -- inside the library, whose modules bind names of their own (TypeNode, ForwardRef, Any, Final, ...).  Every
+    search the library makes on behalf of a caller starts at the first frame outside the library (frames.getcaller()), or the
+    search itself skips the library's frames."""
+    ext = prog.functions.get("typelib.py.frames.extract")
+    if ext is None:
+        rep.held(rule, "typelib.py.frames", "", "no stack search in the package", detail="stack-walk-from-caller", nontrivial=False)
+        return
+    skips_own = any(T.contains(tm, lambda y: T.is_call_to(y, "typelib.py.frames.getcaller") or T.refname(y) in ("typelib.py.frames.PKG_NAME", "typelib.constants.PKG_NAME")) for p in P.paths_of(prog, ext) for tm in p.all_terms())
+    n, inside = 0, []
+    for q, f in sorted(prog.functions.items()):
+        if f.module.name == "typelib.py.frames":
+            continue
+        try:
+            ps = P.paths_of(prog, f)
+        except Exception:  # noqa: BLE001
+            continue
+        for p in ps:
+            for tm in p.all_terms():
+                for x in T.walk(tm):
+                    if T.is_call_to(x, "typelib.py.frames.extract"):
+                        n += 1
+                        start = dict(x[3]).get("frame") or (x[2][1] if len(x[2]) > 1 else None)
+                        if not skips_own and (start is None or not T.contains(start, lambda y: T.is_call_to(y, "typelib.py.frames.getcaller"))):
+                            inside.append(q)
+    if not n:
+        rep.held(rule, ext.qualname, ext.loc, "the package makes no stack search", detail="stack-walk-from-caller", nontrivial=False)
+        return
+    rep.check(not inside, rule, sorted(set(inside))[0] if inside else ext.qualname, ext.loc, f"the stack is searched from the caller's frame on ({n} call(s) on paths)", f"{sorted(set(inside))} search(es) the stack starting at the library's own frames: a name the library's modules bind themselves (TypeNode, ForwardRef, Any, Final, inspection, ...) is found there first -- unmarshal('TypeNode', {{'x': 1}}) from a module that defines its own TypeNode builds typelib.graph.TypeNode", detail="stack-walk-from-caller")
+
+
 def hints_module_owner(prog: Program, rep: Report, rule: str):
     """A string annotation found in a signature is looked up in the module of the object that *owns* the signature.  For an
     alias (tuple['UserId', int], whose made-up signature carries its arguments) `__module__` is the module of the origin
@@ -739,6 +772,7 @@ def run(prog: Program, rep: Report, tier: str):
     shared_reference_memo(prog, rep, "R11.8")
     class_name_not_stripped(prog, rep, "R11.7")
     module_binds_name(prog, rep, "R11.7")
+    stack_walk_from_caller(prog, rep, "R11.7")
     sub = Report("C11", tier)
     sub.rule("R09.4", "", 0)
     c09.r09_4(prog, sub)
